@@ -253,8 +253,12 @@ class Scenario:
             return ("variant", "None", None)
         if last == "count" and a0 == EMPTY:
             return ("int", 0)
+        if last in ("then_some", "then") and a0 is not None and a0[0] == "bool":
+            return ("variant", "Some", a1 if last == "then_some" else None) if a0[1] else ("variant", "None", None)
         if last == "len" and a0 == EMPTY:
             return ("int", 0)
+        if last == "len" and a0 is not None and a0[0] == "lit" and isinstance(a0[1], (str, bytes)):
+            return ("int", len(a0[1].encode() if isinstance(a0[1], str) else a0[1]))      # `CRLF.len()` of a named constant
         if last == "is_empty" and a0 == EMPTY:
             return ("bool", True)
         if last in ("strip_suffix", "strip_prefix") and a0 == EMPTY and a1 is not None and a1[0] in ("lit", "int"):
